@@ -166,7 +166,11 @@ func writeDesc(w io.Writer, desc string, indent int, withDesc bool) (err error) 
 		}
 	}
 	shift := strings.Repeat("  ", indent)
+	// The scanner reads a backslash as the start of an escape in both string
+	// forms so it has to be written as one.
+	desc = strings.ReplaceAll(desc, "\\", "\\\\")
 	if strings.ContainsAny(desc, "\n\"") {
+		desc = strings.ReplaceAll(desc, `"""`, `\"""`)
 		if _, err = w.Write([]byte(shift)); err == nil {
 			shift = "\n" + shift
 			if _, err = w.Write([]byte(`"""`)); err == nil {
